@@ -3,7 +3,7 @@
    Print Assumptions.  K is the entry key (graph.NodeInfo for graphs), keqb its decidable equality;
    [build_graph K keqb None ss] is the model of newGraph (graph.go:326) before nodes with zero
    numbers are hidden, [new_graph] the graph that is reported; the specification sums are in S_Graph. *)
-From PV Require Import M_Graph S_Graph M_Report L_Graph L_Report L_Tree.
+From PV Require Import M_Graph S_Graph M_Report L_Graph L_Report L_Tree L_Bounds.
 Open Scope Z_scope.
 
 Definition key_eq (K : Type) (keqb : K -> K -> bool) : Prop := forall a b, keqb a b = true <-> a = b.
@@ -144,4 +144,32 @@ Example nodecount_defaults :
   entry_nodecount "web" "text" false 0 7 = 500 /\ entry_nodecount "session" "tree" true 3 7 = 3 /\
   entry_nodecount "session" "tree" false 3 7 = 7 /\ entry_nodecount "session" "text" false 0 (-1) = 10 /\
   entry_nodecount "cli" "text" false 0 (-1) = -1.
+Proof. vm_compute. repeat split; reflexivity. Qed.
+
+(* ---- order relations between the definition sums (what "flat <= cum" and "an edge is part of
+   both its ends" mean to a reader), for every kept set, whenever no summed value is negative ---- *)
+Theorem flat_le_cum : forall K keqb, key_eq K keqb -> forall div kept ss n,
+  (forall s, In s ss -> 0 <= pick K div s) ->
+  flat_spec K keqb div kept ss n <= cum_spec K keqb div kept ss n.
+Proof. exact flat_le_cum_lemma. Qed.
+Print Assumptions flat_le_cum.
+
+Theorem edge_le_cum_of_both_ends : forall K keqb, key_eq K keqb -> forall div kept ss a b,
+  (forall s, In s ss -> 0 <= pick K div s) ->
+  edge_spec K keqb div kept ss a b <= cum_spec K keqb div kept ss a /\
+  edge_spec K keqb div kept ss a b <= cum_spec K keqb div kept ss b.
+Proof. exact edge_le_cum_lemma. Qed.
+Print Assumptions edge_le_cum_of_both_ends.
+
+(* the hypothesis is needed (a diff profile has negative values: flat 5 > cum 5 - 7), and it is
+   satisfiable with a non-trivial graph: recursion 1 -> 2 -> 1 counts cum once, flat at the leaf *)
+Example flat_le_cum_needs_nonneg :
+  let ss := [mk_gsample [(1, false)] 5 0; mk_gsample [(1, false); (2, false)] (-7) 0] in
+  flat_spec Z Z.eqb false None ss 1 = 5 /\ cum_spec Z Z.eqb false None ss 1 = -2.
+Proof. vm_compute. split; reflexivity. Qed.
+Example flat_le_cum_somewhere :
+  let ss := [mk_gsample [(1, false); (2, false); (1, false)] 5 0; mk_gsample [(1, false); (2, false)] 3 0] in
+  flat_spec Z Z.eqb false None ss 1 = 5 /\ cum_spec Z Z.eqb false None ss 1 = 8 /\
+  edge_spec Z Z.eqb false None ss 1 2 = 8 /\ edge_spec Z Z.eqb false None ss 2 1 = 5 /\
+  cum_spec Z Z.eqb false None ss 2 = 8.
 Proof. vm_compute. repeat split; reflexivity. Qed.
